@@ -30,7 +30,7 @@ TYPES = ["gene", "mRNA", "exon", "CDS"]
 
 def budget(tier):
     if tier == "quick":
-        return {"runs": 900, "wall": 50, "chunk": 8}
+        return {"runs": 2400, "wall": 50, "chunk": 8}
     return {"runs": 90000, "wall": 1500, "chunk": 8}
 
 
